@@ -13,6 +13,7 @@ from .core import Result, Broken, norm
 
 PURE_CALLS = {"strlen", "strcmp", "strncmp", "strcasecmp", "strncasecmp", "memcmp", "strchr", "strrchr", "memchr", "isspace", "isdigit",
               "isalpha", "isalnum", "isupper", "islower", "isgraph", "isprint", "tolower", "toupper", "strspn", "strcspn", "strstr"}
+ALLOC_CALLS = {"malloc", "calloc", "realloc", "strdup", "strndup", "mpt_array_reserve", "mpt_array_append", "mpt_array_slice", "mpt_array_insert"}
 MEMWRITE = {"memcpy": 0, "memmove": 0, "memset": 0, "strcpy": 0, "strncpy": 0}
 
 
@@ -305,8 +306,9 @@ def deciding_conditions(f, bid):
     return conds
 
 
-def check_function(prog, res, f, obj_ids, is_error, label=None, summaries=None, ignore_fields=()):
+def check_function(prog, res, f, obj_ids, is_error, label=None, summaries=None, ignore_fields=(), strict_later=False):
     prot = Protected(f, obj_ids, prog=prog)
+    prot.strict_later = strict_later
     PK = Analysis.PK
     cav = call_assigned_vars(f)
 
@@ -358,12 +360,19 @@ def check_function(prog, res, f, obj_ids, is_error, label=None, summaries=None, 
                         decided_by_touch = True
             # calls that only look at their arguments could have been made before the store: they do not excuse it
             pure_sids = {m["sid"] for bb, ii, m in f.walk_all() if m.get("k") == "call" and "sid" in m and callee_name(m) in PURE_CALLS}
+            # ... and so could a call that has nothing to do with the object (a conversion of the source value): only a call
+            # that was handed a pointer into the object, or that allocates, can need the store to have happened first
+            alloc_sids = {m["sid"] for bb, ii, m in f.walk_all() if m.get("k") == "call" and "sid" in m and callee_name(m) in ALLOC_CALLS}
+            strict = getattr(prot, "strict_later", False)
             for c in conds:
                 for n in walk(c):
                     if n.get("k") == "call" and n.get("sid") in calls and n.get("sid") not in pure_sids:
-                        later = True
-                    if n.get("k") == "ref" and n["d"].get("id") in cav and (cav[n["d"]["id"]] & calls) - pure_sids:
-                        later = True
+                        if not strict or n.get("sid") in touched_calls or n.get("sid") in alloc_sids:
+                            later = True
+                    if n.get("k") == "ref" and n["d"].get("id") in cav:
+                        sids = (cav[n["d"]["id"]] & calls) - pure_sids
+                        if sids and (not strict or sids & (touched_calls | alloc_sids)):
+                            later = True
             for (sb, si) in sorted(stores):
                 sel = f.blocks[sb].el[si]
                 sn = prot.store_sites(sel)
@@ -454,7 +463,7 @@ def run_layout(prog, ctx=None):
         if (f.key(), idx) in seen or len(f.params) <= idx:
             continue
         seen.add((f.key(), idx))
-        check_function(prog, res, f, [f.params[idx]["id"]], neg_error, label=None if idx == 0 else "%s[arg %d]" % (f.qn, idx))
+        check_function(prog, res, f, [f.params[idx]["id"]], neg_error, label=None if idx == 0 else "%s[arg %d]" % (f.qn, idx), strict_later=True)
         prot = Protected(f, [f.params[idx]["id"]])
         for b, i, e in f.elements():
             if e.get("k") != "call":
